@@ -140,11 +140,52 @@ Proof. exact dataset_axis. Qed.
 
 (** ** TEXT level: sdf.GRAMMAR as lark parses it (Model/SdfText.v; [parse_sdf] = the children of lark's start tree, None = lark raises) *)
 (* every way of writing a file covered by the concrete syntax [cfile] -- any ignored text (blanks, tabs, form feeds, newlines, "\r\n",
-   "//" comments) wherever the grammar ignores it, blanks in front of names, header entries, CELLTYPE, (INSTANCE), TIMINGCHECK with any
-   balanced payload, a last comment without newline -- is accepted and parsed to exactly its DESIGN names, INSTANCE names and delay entries *)
+   "//" comments) wherever the grammar ignores it, header entries, CELLTYPE, (INSTANCE), TIMINGCHECK with any balanced payload, a last
+   comment without newline -- is accepted and parsed to exactly its DESIGN names, INSTANCE names and delay entries.  Next to a name the
+   conditions of [cfile_ok] follow the lexer (fix d9c2c16: a plain ID / ID_OR_EDGE is a run of characters other than parentheses and \s, ID also without the double quote) exactly:
+   * in front of a name ([bef_ok]): ANY ignored text, also none, in which every comment directly follows a line break, "\r\n" or another
+     comment ([cm_ok]; anywhere else the `//` would be lexed as a name); where that text ends with a line break or comment the name does
+     not begin with `//` (it would be one more comment);
+   * between the two names of an entry ([touch_ok]): such text, non-empty unless one of the names is in the quoted / parenthesised form;
+   * after a plain name ([aft_ok]): nothing (a parenthesis follows) or any ignored text that does not begin with a comment (a `//`
+     directly after a name belongs to the name); after the quoted / parenthesised form any ignored text.
+   The first version of these conditions (a blank, then blanks / tabs / form feeds; after a name nothing or text beginning with a blank) is
+   the special case C14_text_parse_cfile_v1. *)
 Theorem C14_text_parse_cfile : forall f : cfile, cfile_ok f = true -> parse_sdf (cfile_text f) = Some (cfile_abs f).
 Proof. exact parse_cfile. Qed.
-(* (a) round trip with the printer, for every well-formed tree (names as lark can return them after a blank, number texts over [-.0-9]) *)
+Theorem C14_text_parse_cfile_v1 : forall f : cfile, cfile_ok_v1 f = true -> cfile_ok f = true /\ parse_sdf (cfile_text f) = Some (cfile_abs f).
+Proof. intros f H. split; [apply cfile_ok_v1_wide, H | apply parse_cfile_v1, H]. Qed.
+(* the conditions next to a name are EXACT at the scanner of a name state ([scan_id] / [scan_ide] = what lark lexes where ID / ID_OR_EDGE is
+   acceptable; [sep_text s] = the text of a sequence of blanks, tabs, form feeds, line breaks, "\r\n" and `//` comments):
+   the scanner skips the separator and arrives at X iff every comment follows a line break or comment ... *)
+Theorem C14_text_idsep_exact : forall (s : sep) (X : string), sep_ok s = true -> stops is_ws X = true -> ends0 false s && slash2 X = false ->
+  (id_skip (sep_text s ++ X)%string = X <-> idsep_ok s = true).
+Proof. exact id_skip_sep_iff. Qed.
+(* ... otherwise it stops in front of the first misplaced comment, which is lexed as a name that begins with `//` *)
+Theorem C14_text_comment_lexed_as_name : forall (s : sep) (X : string), sep_ok s = true -> cm_ok false s = false ->
+  (exists p b r, s = p ++ IgComment b :: r /\ id_skip (sep_text s ++ X)%string = (sep_text (IgComment b :: r) ++ X)%string) /\
+  (exists n r, scan_id (sep_text s ++ X)%string = Some (n, r) /\ slash2 n = true) /\
+  (exists n r, scan_ide (sep_text s ++ X)%string = Some (n, r) /\ slash2 n = true).
+Proof. intros s X H1 H2. split; [apply id_skip_sep_bad; assumption|]. split; [apply scan_id_comment | apply scan_ide_comment]; assumption. Qed.
+(* where the separator ends with a line break or comment, a name written with `//` in front is not read (it is one more comment) *)
+Theorem C14_text_slash_name_lost : forall (s : sep) (n rest : string), idsep_ok s = true -> ends0 false s = true -> slash2 (n ++ rest) = true ->
+  scan_id (sep_text s ++ n ++ rest)%string <> Some (n, rest) /\ scan_ide (sep_text s ++ n ++ rest)%string <> Some (n, rest).
+Proof. intros s n rest H1 H2 H3. split; [apply scan_id_slash_lost | apply scan_ide_slash_lost]; assumption. Qed.
+(* a plain name ends where written iff a character outside its class follows: a parenthesis or ANY white-space character (for ID also the
+   double quote); in particular a comment directly after a plain name belongs to the name *)
+Theorem C14_text_name_end_exact : forall (s : sep) (n rest : string), idsep_ok s = true -> ends0 false s && slash2 (n ++ rest) = false ->
+  (wf_ide n = true -> opens c_lpar n = false -> (scan_ide (sep_text s ++ n ++ rest)%string = Some (n, rest) <-> name_end rest = true)) /\
+  (wf_id n = true -> opens c_quote n = false -> (scan_id (sep_text s ++ n ++ rest)%string = Some (n, rest) <-> stops id_char rest = true)) /\
+  (name_end rest = true -> stops id_char rest = true).
+Proof.
+  intros s n rest H1 H2. split; [intros H3 H4; apply scan_ide_plain_iff; assumption|]. split; [intros H3 H4; apply scan_id_plain_iff; assumption|].
+  exact (name_end_stops id_char id_char_end rest).
+Qed.
+(* `(INSTANCE` s `)` is an INSTANCE without name exactly for these separators *)
+Theorem C14_text_instance0_exact : forall (s : sep) (rest : string), sep_ok s = true ->
+  (parse_instance (sep_text s ++ ")" ++ rest)%string = Some ([], rest) <-> idsep_ok s = true).
+Proof. exact instance0_iff. Qed.
+(* (a) round trip with the printer, for every well-formed tree (names as lark can return them, number texts over [-.0-9]) *)
 Theorem C14_text_parse_print : forall t : list xsarg, wf_tree t = true -> parse_sdf (print_sdf t) = Some t.
 Proof. exact parse_print. Qed.
 Theorem C14_text_print_is_cfile : forall t : list xsarg, print_sdf t = cfile_text (cfile_of t) /\
@@ -186,6 +227,15 @@ Theorem C14_text_example : cfile_ok ex_file = true /\ cfile_abs ex_file = ex_tre
   wf_tree ex_tree = true /\ parse_sdf (print_sdf ex_tree) = Some ex_tree /\
   cfile_abs (strip_file ex_file) = ex_tree /\ List.length (cf_items (strip_file ex_file)) = 4.
 Proof. exact ex_file_ok. Qed.
+(* the widened conditions are satisfiable and strictly wider: names on the next line, after comments that follow a line break, after "\r\n" / tabs,
+   no separator next to the quoted / parenthesised form, a comment directly after such a form; the text is spelled out in Proofs/SdfTextProofs.v *)
+Theorem C14_text_example_wide : cfile_ok ex_wide = true /\ cfile_ok_v1 ex_wide = false /\ cfile_abs ex_wide = ex_wide_tree /\
+  parse_sdf (cfile_text ex_wide) = Some ex_wide_tree.
+Proof. destruct ex_wide_ok as [H1 [H2 [H3 [H4 _]]]]. repeat split; assumption. Qed.
+(* for whole files [cfile_ok] is sufficient, not necessary (a misplaced empty comment is lexed as the name `//`; the name `//` after it is skipped
+   as a comment): the exactness statements are therefore made at the scanner of a name, and checked on generated one-defect renderings *)
+Theorem C14_text_cfile_ok_not_necessary : exists f : cfile, cfile_ok f = false /\ parse_sdf (cfile_text f) = Some (cfile_abs f).
+Proof. exists ex_coincidence. destruct ex_coincidence_ok as [H1 [_ [H2 _]]]. split; assumption. Qed.
 Local Open Scope string_scope.
 (* D34 (fixed by d9c2c16): ID and ID_OR_EDGE end at any \s character, so a newline or tab next to a name is NOT lexed into the name: the
    instance of `(INSTANCE u1` NEWLINE `)` is "u1" and its delays are kept, `A<TAB>Z` are two pins; every character the two ignore rules skip is \s *)
